@@ -162,7 +162,8 @@ fn sender_sequence(link: u8, n_packets: usize, base_off: u64, mute: bool) -> Vec
 }
 
 fn collector_output(prelude: &[StatType], merged: &[&StatType], mute: bool, toml: bool) -> String {
-    let mut c = StatsCollector::default();
+    // with the ALPIDE statistics block (as in stave mode): AlpideStats messages need it
+    let mut c = StatsCollector::with_alpide_stats();
     for m in prelude {
         c.collect(m.clone());
     }
@@ -252,6 +253,9 @@ fn message_kinds() -> Vec<(&'static str, StatType)> {
         ("TriggerType'", StatType::TriggerType(0x13)),
         ("SystemId", StatType::SystemId(SystemId::ITS)),
         ("RunTriggerType", StatType::RunTriggerType((0x6A03, "SOC".into()))),
+        // ALPIDE statistics arrive from every validator (stave mode): two different values of every counter
+        ("AlpideStats", StatType::AlpideStats(serde_json::from_value(json!({"readout_flags": {"chip_trailers_seen": 7, "busy_violations": 1, "data_overrun": 2, "transmission_in_fatal": 3, "flushed_incomplete": 4, "strobe_extended": 5, "busy_transitions": 6}})).expect("AlpideStats from JSON"))),
+        ("AlpideStats'", StatType::AlpideStats(serde_json::from_value(json!({"readout_flags": {"chip_trailers_seen": 100, "busy_violations": 20, "data_overrun": 30, "transmission_in_fatal": 40, "flushed_incomplete": 50, "strobe_extended": 60, "busy_transitions": 70}})).expect("AlpideStats from JSON"))),
         ("Error", StatType::Error("0x100: [E10] a".into())),
         ("Error'", StatType::Error("0x40: [E11] b".into())),
     ]
